@@ -135,9 +135,11 @@ func (p *PauseController) Wait() (PauseWaitAction, string) {
 	default:
 		select {
 		case <-pauseChannel:
-			switch p.GetState() {
+			// Read the state and its message together: a later command may
+			// change them between two separate reads.
+			switch state, stopMessage := p.stateAndStopMessage(); state {
 			case PauseStateStopped:
-				return PauseWaitActionStopped, p.GetStopMessage()
+				return PauseWaitActionStopped, stopMessage
 			default:
 				return PauseWaitActionProceed, ""
 			}
@@ -145,6 +147,13 @@ func (p *PauseController) Wait() (PauseWaitAction, string) {
 			return PauseWaitActionTimedOut, ""
 		}
 	}
+}
+
+func (p *PauseController) stateAndStopMessage() (PauseState, string) {
+	p.lock.RLock()
+	defer p.lock.RUnlock()
+
+	return p.State, p.StopMessage
 }
 
 func (p *PauseController) getWaitState() (PauseState, string, chan bool, <-chan time.Time) {
